@@ -7137,6 +7137,7 @@ static PyObject* lacpy(PyObject *self, PyObject *args, PyObject *kwrds)
         err_char("trans", "'N', 'L', 'U'");
     if (m < 0) m = A->nrows;
     if (n < 0) n = A->ncols;
+    if (m == 0 || n == 0) return Py_BuildValue("");
     if (ldA == 0) ldA = MAX(1, A->nrows);
     if (ldA < MAX(1, m)) err_ld("ldA");
     if (ldB == 0) ldB = MAX(1, B->nrows);
